@@ -84,6 +84,9 @@ func InitialDir(kind string, cfg reftable.Config) (map[string][]byte, error) {
 		case "three":
 			// the middle table holds a tombstone for a ref created in the first
 			ids = []string{"i1", "del:refs/t/i1", "i3"}
+		case "cancel":
+			// the two oldest tables cancel out entirely (create then delete): compacting them yields no table
+			ids = []string{"name:refs/c", "del:refs/c", "i3"}
 		case "four":
 			ids = []string{"i1", "i2", "i3", "i4"}
 		default:
